@@ -552,6 +552,11 @@ Lemma table_thm (ds:list (option dialect)) : forallb table_wf_opt ds = true ->
   forall d c r, In (Some d) ds -> C18_holds (d, c, r) (offline_chunks d c r).
 Proof. intros H d c r Hin. rewrite forallb_forall in H. apply C18_main_thm. apply (H (Some d) Hin). Qed.
 
-Lemma conn_state_thm d tddl pm b r :
-  offline_chunks d (mkOcfg tddl pm b) r = offline_chunks d (mkOcfg tddl pm false) r.
+Lemma conn_state_thm d tddl pm b e r :
+  offline_chunks d (mkOcfg tddl pm b e) r = offline_chunks d (mkOcfg tddl pm false e) r.
 Proof. reflexivity. Qed.
+
+Lemma override_routes_thm d pm b x r :
+  offline_chunks d (mkOcfg (Some x) pm b None) r = offline_chunks d (mkOcfg None pm b (Some x)) r /\
+  (forall y, offline_chunks d (mkOcfg (Some x) pm b (Some y)) r = offline_chunks d (mkOcfg (Some x) pm b None) r).
+Proof. split; reflexivity. Qed.
